@@ -192,6 +192,11 @@ def dialUrlResult (path : Path) (r : Except Err Nat) : Except Err Nat :=
     if 200 ≤ status ∧ status < 300 then .ok i else .error s!"proxystatus.{status}"
   | .proxy _, .error e => if e = "port" then .error "proxyport" else .error e
 
+/-- The dial that `dial_url` performs on `path` for a builder whose `prefer_ipv6` is `p`: on
+both paths `dial_happy_eyeballs(&self.dns_resolver, <relay or proxy url>, self.prefer_ipv6)` —
+the proxy hop is an ordinary dial of the proxy's host with the builder's preference. -/
+def dialUrlStart (_path : Path) (p : Bool) : DState := start p
+
 /-! ## Timed environment (driver side) -/
 
 /-- A connection attempt as the environment sees it. -/
